@@ -3,6 +3,7 @@ package sim
 import (
 	"fmt"
 	"sort"
+	"strings"
 )
 
 // Rng is the only source of choices: splitmix64 seeded from the run's value.
@@ -54,6 +55,10 @@ type Profile struct {
 	// MistypedAttrs: items may carry g1 with a non-declared type while no index
 	// is keyed by it, so that a later index creation meets ill-typed items
 	MistypedAttrs bool
+	// Unusual: rare values of unusual shape (5 KB string, 33-member set, document five levels deep)
+	Unusual bool
+	// NativeUpdaters: the manager registers Go updaters on the native interpreter
+	NativeUpdaters bool
 	// BigUniverse: up to 5 hash and range values per table (thorough tier)
 	BigUniverse bool
 	// BigTables: the check has a big-table class (thorough tier); Big: this run is one
@@ -101,6 +106,12 @@ type Gen struct {
 	// the empty item.
 	inFilter   bool
 	natFilters []natFilter
+	natUpdates []natUpdate
+}
+
+type natUpdate struct {
+	table string
+	u     Update
 }
 
 type natFilter struct {
@@ -296,6 +307,8 @@ func (g *Gen) makeWorld() {
 				cands = append(cands, IndexDef{Name: "lsi1", Kind: "lsi", Hash: KeyDef{"h", hashT}, Range: &KeyDef{"l1", "S"}})
 				// inverted index: keyed by primary-key attributes only
 				cands = append(cands, IndexDef{Name: "gsi3", Kind: "gsi", Hash: KeyDef{"r", rangeT}, Range: &KeyDef{"h", hashT}})
+				// a global index sharing its key attribute with the local one
+				cands = append(cands, IndexDef{Name: "gsi4", Kind: "gsi", Hash: KeyDef{"l1", "S"}})
 			}
 			for i := len(cands) - 1; i > 0; i-- {
 				j := r.Intn(i + 1)
@@ -378,6 +391,9 @@ func (g *Gen) value(typ string) AV {
 	r := g.R
 	switch typ {
 	case "S":
+		if g.P.Unusual && r.Chance(0.02) {
+			return S(strings.Repeat("long-string-", 420)) // about 5 KB
+		}
 		if r.Chance(0.3) {
 			g.uniq++
 			return S(fmt.Sprintf("v%d", g.uniq))
@@ -390,6 +406,13 @@ func (g *Gen) value(typ string) AV {
 	case "NULL":
 		return Null()
 	case "SS":
+		if g.P.Unusual && r.Chance(0.03) {
+			var big []string
+			for i := 0; i < 33; i++ {
+				big = append(big, fmt.Sprintf("m%02d", i))
+			}
+			return SSet(big...)
+		}
 		n := r.Range(1, 3)
 		m := map[string]bool{}
 		for i := 0; i < n; i++ {
@@ -408,6 +431,10 @@ func (g *Gen) value(typ string) AV {
 	case "BS":
 		return pick(r, []AV{BSet([]byte{1}), BSet([]byte{1}, []byte{2}), BSet([]byte{'a', 'b'})})
 	case "M":
+		if g.P.Unusual && r.Chance(0.03) {
+			// five levels deep
+			return Map(map[string]AV{"k": Map(map[string]AV{"z": S("d2"), "y": Map(map[string]AV{"x": List(Map(map[string]AV{"w": g.value("N")}), g.value("S"))})})})
+		}
 		switch r.Intn(3) {
 		case 0:
 			return Map(map[string]AV{"k": g.value("S")})
@@ -706,7 +733,17 @@ func (g *Gen) update(name string, def TableDef, cur Item) Update {
 			a = UpdAction{Kind: "REMOVE", Path: P(pick(r, names))}
 		case k == 9: // nested
 			if v, ok := cur["m"]; ok && v.T == "M" {
-				if r.Chance(0.5) {
+				if inner, has := v.M["k"]; has && inner.T == "M" && r.Chance(0.5) {
+					// two steps deep
+					if r.Chance(0.7) {
+						a = UpdAction{Kind: "SET", Path: Path{Attr: "m", Sub: []PathElem{{Key: "k"}, {Key: "z"}}}, Form: "val", Val: g.value("S")}
+					} else if _, hz := inner.M["z"]; hz && len(inner.M) > 1 {
+						// (never emptying a map: the SDK v2 adapter returns empty maps as NULL, C10)
+						a = UpdAction{Kind: "REMOVE", Path: Path{Attr: "m", Sub: []PathElem{{Key: "k"}, {Key: "z"}}}}
+					} else {
+						continue
+					}
+				} else if r.Chance(0.5) {
 					a = UpdAction{Kind: "SET", Path: Path{Attr: "m", Sub: []PathElem{{Key: "k"}}}, Form: "val", Val: g.value("S")}
 				} else if _, has := v.M["j"]; has {
 					a = UpdAction{Kind: "REMOVE", Path: Path{Attr: "m", Sub: []PathElem{{Key: "j"}}}}
@@ -717,7 +754,9 @@ func (g *Gen) update(name string, def TableDef, cur Item) Update {
 				continue
 			}
 		case k == 10:
-			if v, ok := cur["l"]; ok && v.T == "L" && len(v.L) > 0 {
+			if v, ok := cur["l"]; ok && v.T == "L" && len(v.L) > 0 && v.L[0].T == "L" && len(v.L[0].L) > 0 && r.Chance(0.4) {
+				a = UpdAction{Kind: "SET", Path: Path{Attr: "l", Sub: []PathElem{{IsI: true, Idx: 0}, {IsI: true, Idx: 0}}}, Form: "val", Val: g.value("S")}
+			} else if v, ok := cur["l"]; ok && v.T == "L" && len(v.L) > 0 {
 				switch r.Intn(3) {
 				case 0:
 					a = UpdAction{Kind: "SET", Path: Path{Attr: "l", Sub: []PathElem{{IsI: true, Idx: r.Intn(len(v.L))}}}, Form: "val", Val: g.value("S")}
@@ -796,6 +835,7 @@ func (g *Gen) try(m *Model, eng *Engine) *Cmd {
 			cmd.Cond = g.cond(name, def, 2)
 			cmd.RetOnFail = r.Chance(0.3)
 			g.biasCond(cmd, mt, def, cmd.Item)
+			g.attrOperandCond(cmd, mt, def, cmd.Item)
 		}
 	case "update", "updcond":
 		cmd.Op, cmd.Actor = "Update", "writer"
@@ -808,10 +848,21 @@ func (g *Gen) try(m *Model, eng *Engine) *Cmd {
 			cur = cmd.Key
 		}
 		cmd.Upd = g.update(name, def, cur)
+		if len(g.natUpdates) > 0 && r.Chance(0.4) {
+			// reuse the text of a registered Go updater
+			nu := pick(r, g.natUpdates)
+			if nu.table == name {
+				cmd.Upd = nu.u
+			}
+		}
+		if r.Chance(0.12) {
+			cmd.RetVal = pick(r, []string{"NONE", "UPDATED_OLD", "UPDATED_NEW", "ALL_OLD"})
+		}
 		if kind == "updcond" {
 			cmd.Cond = g.cond(name, def, 2)
 			cmd.RetOnFail = r.Chance(0.3)
 			g.biasCond(cmd, mt, def, cmd.Key)
+			g.attrOperandCond(cmd, mt, def, cmd.Key)
 		}
 	case "delete", "delcond":
 		cmd.Op, cmd.Actor = "Delete", "writer"
@@ -820,6 +871,7 @@ func (g *Gen) try(m *Model, eng *Engine) *Cmd {
 			cmd.Cond = g.cond(name, def, 2)
 			cmd.RetOnFail = r.Chance(0.3)
 			g.biasCond(cmd, mt, def, cmd.Key)
+			g.attrOperandCond(cmd, mt, def, cmd.Key)
 		}
 	case "get":
 		cmd.Op, cmd.Actor = "Get", "reader"
@@ -839,6 +891,10 @@ func (g *Gen) try(m *Model, eng *Engine) *Cmd {
 			cmd.Op, cmd.Actor = "Open", "paginator"
 			cmd.Walk = g.nextW
 			g.nextW++
+			if r.Chance(0.2) {
+				// a ProjectionExpression, with or without the key attributes
+				cmd.Proj = [][]string{{"a"}, {"a", "b"}, {"h"}, {"h", "r", "a"}, {"n", "g1"}, {"r"}}[r.Intn(6)]
+			}
 			n := len(mt.Items)
 			cmd.Limit = r.Range(1, n+1)
 			if r.Chance(0.4) {
@@ -1018,7 +1074,11 @@ func (g *Gen) try(m *Model, eng *Engine) *Cmd {
 		if vals := g.W.uni(name).IdxVals["g2"]; len(vals) > 0 {
 			g2T = vals[0].T
 		}
-		for _, ix := range []IndexDef{{Name: "gsi1", Kind: "gsi", Hash: KeyDef{"g1", "S"}}, {Name: "gsi2", Kind: "gsi", Hash: KeyDef{"g1", "S"}, Range: &KeyDef{"g2", g2T}}} {
+		pool := []IndexDef{{Name: "gsi1", Kind: "gsi", Hash: KeyDef{"g1", "S"}}, {Name: "gsi2", Kind: "gsi", Hash: KeyDef{"g1", "S"}, Range: &KeyDef{"g2", g2T}}, {Name: "gsi4", Kind: "gsi", Hash: KeyDef{"l1", "S"}}}
+		if mt.Def.Range != nil {
+			pool = append(pool, IndexDef{Name: "gsi3", Kind: "gsi", Hash: KeyDef{mt.Def.Range.Name, mt.Def.Range.Type}, Range: &KeyDef{mt.Def.Hash.Name, mt.Def.Hash.Type}})
+		}
+		for _, ix := range pool {
 			if mt.Def.index(ix.Name) == nil {
 				cands = append(cands, ix)
 			}
@@ -1027,7 +1087,7 @@ func (g *Gen) try(m *Model, eng *Engine) *Cmd {
 			return nil
 		}
 		ix := pick(r, cands)
-		if g.P.MistypedAttrs && ix.Range != nil && r.Chance(0.3) {
+		if g.P.MistypedAttrs && ix.Name == "gsi2" && r.Chance(0.3) {
 			// the same attribute declared again with another type
 			rt := *ix.Range
 			if rt.Type == "S" {
@@ -1038,7 +1098,8 @@ func (g *Gen) try(m *Model, eng *Engine) *Cmd {
 			ix.Range = &rt
 		}
 		cmd.Op, cmd.Actor, cmd.IdxDef = "IndexCreate", "manager", &ix
-		cmd.Helper = (ix.Range == nil || ix.Range.Type == "S") && mt.Def.Billing == "PAY_PER_REQUEST" && r.Chance(0.4)
+		// (on a provisioned table the helper, which sends no throughput, is refused: modelled)
+		cmd.Helper = ix.Hash.Type == "S" && (ix.Range == nil || ix.Range.Type == "S") && (mt.Def.Billing == "PAY_PER_REQUEST" && r.Chance(0.4) || mt.Def.Billing != "PAY_PER_REQUEST" && r.Chance(0.15))
 	case "idxdrop":
 		if mt == nil {
 			return nil
@@ -1126,6 +1187,17 @@ func (g *Gen) try(m *Model, eng *Engine) *Cmd {
 			cmd.Op, cmd.Actor = "Update", "injector"
 			cmd.Key = g.keyFor(name, def, mt)
 			cmd.Upd = Update{{Kind: "SET", Path: P(kd.Name), Form: "val", Val: wrong}, {Kind: "SET", Path: P("a"), Form: "val", Val: g.value("S")}}
+			var cur Item
+			if it := mt.Items[KeyID(def, cmd.Key)]; it != nil {
+				cur = it
+			}
+			// the refused update also changes, in place, what the item already has
+			if v, ok := cur["n"]; (ok && v.T == "N" || !ok) && r.Chance(0.6) {
+				cmd.Upd = append(Update{{Kind: "ADD", Path: P("n"), Val: N("1")}}, cmd.Upd...)
+			}
+			if v, ok := cur["ss"]; (ok && v.T == "SS" || !ok) && r.Chance(0.5) {
+				cmd.Upd = append(Update{{Kind: "ADD", Path: P("ss"), Val: SSet("added")}}, cmd.Upd...)
+			}
 			seen := map[string]bool{}
 			for _, k := range others {
 				if !seen[k.Name] {
@@ -1247,6 +1319,16 @@ func (g *Gen) try(m *Model, eng *Engine) *Cmd {
 			cmd.Native, cmd.T = "activate", ""
 			break
 		}
+		if g.P.NativeUpdaters && r.Chance(0.5) {
+			// a Go updater registered under the text of an update the writers will send again
+			cmd.Upd = g.update(name, def, Item{})
+			cmd.Native = "updater-set"
+			if g.P.Prop == "C08" && r.Chance(0.6) {
+				cmd.Native = "updater-panic"
+			}
+			g.natUpdates = append(g.natUpdates, natUpdate{name, cmd.Upd})
+			break
+		}
 		// (no begins_with/contains: the text is reused on other tables, whose
 		// items may lack the attribute - outside the fragment)
 		f := g.cond(name, def, 1)
@@ -1305,6 +1387,35 @@ func (g *Gen) dropWalk(w int) {
 			return
 		}
 	}
+}
+
+// attrOperandCond: a condition whose right-hand operands are attributes of the
+// target (n and c, both numbers there): BETWEEN bounds, IN members, comparisons.
+func (g *Gen) attrOperandCond(cmd *Cmd, mt *MTable, def TableDef, key Item) {
+	r := g.R
+	if mt == nil || !r.Chance(0.2) {
+		return
+	}
+	cur := mt.Items[KeyID(def, key)]
+	if cur == nil || cur["n"].T != "N" || cur["c"].T != "N" {
+		return
+	}
+	n, cc := &Path{Attr: "n"}, &Path{Attr: "c", Alias: r.Chance(0.3)}
+	var e *Expr
+	switch r.Intn(4) {
+	case 0:
+		e = &Expr{Op: "between", Path: n, Vals: []AV{N("0"), N(pick(r, numPool))}, RP: []*Path{cc, nil}}
+	case 1:
+		e = &Expr{Op: "between", Path: n, Vals: []AV{N(pick(r, numPool)), N("0")}, RP: []*Path{nil, cc}}
+	case 2:
+		e = &Expr{Op: "in", Path: n, Vals: []AV{N("0"), N(pick(r, numPool))}, RP: []*Path{cc, nil}}
+	default:
+		e = &Expr{Op: pick(r, []string{"<", "<=", "=", "<>", ">="}), Path: n, Vals: []AV{N("0")}, RP: []*Path{cc}}
+	}
+	if r.Chance(0.3) {
+		e = &Expr{Op: "not", Args: []*Expr{{Op: e.Op, Path: e.Path, Vals: e.Vals, RP: e.RP, Paren: true}}}
+	}
+	cmd.Cond, cmd.NeedN = e, []string{"n", "c"}
 }
 
 // biasCond: half of the time make the condition's truth on the target differ
@@ -1379,7 +1490,7 @@ func (g *Gen) shape(cmd *Cmd, name string, def TableDef, query bool) {
 // bad builds one deliberately failing request (fault classes F2-F4).
 func (g *Gen) bad(cmd *Cmd, name string, def TableDef, mt *MTable) *Cmd {
 	r := g.R
-	if mt == nil {
+	if mt == nil && g.P.Prop != "C17" {
 		return nil
 	}
 	cmd.Op, cmd.Actor = "Bad", "injector"
